@@ -882,6 +882,12 @@ def purge_modules():
             del sys.modules[name]
 
 
+LONG_OPTS = {"-p": "--path", "-P": "--skip-parser-plugins", "-f": "--file", "-l": "--list", "-a": "--all-pels", "-n": "--show-pel-count",
+             "-d": "--delete", "-D": "--delete-all", "-i": "--id", "-x": "--hex", "-r": "--reverse", "-e": "--extension",
+             "-E": "--every-pel", "-s": "--serviceable", "-N": "--non-serviceable", "-H": "--hidden", "-t": "--termination",
+             "-S": "--severities", "-O": "--only", "-j": "--json", "-o": "--output-dir", "-c": "--clean", "-A": "--archive"}
+
+
 class OpResult:
     def to_json(self):
         return {k: getattr(self, k) for k in ("argv", "exit", "exc", "stdout", "stderr", "crashed")}
@@ -935,6 +941,7 @@ class World:
         self.host = PluginHost(specs, self.regdir)
         self.peltool = None
         self.fresh_per_run = False
+        self.long_opts = False       # spell options in their long form (--list instead of -l ...)
         self.path_style = "abs"      # how directory / file arguments are spelled: abs | rel | slash
         self.rel_dot = False
         self._saved_path = None
@@ -1050,6 +1057,9 @@ class World:
                 p += "/"
             return p
         real = [tr(a) for a in argv]
+        if self.long_opts:
+            real = [LONG_OPTS.get(a, a) for a in real]
+            argv = [LONG_OPTS.get(a, a) for a in argv]
         if self.bmc:
             # on the BMC there is no -p: the PEL directory is the built-in default, its archive is reached with -A
             out_argv, i = [], 0
